@@ -31,6 +31,7 @@ func corrC16(r *Run) {
 type c16Pending struct {
 	frames [][]byte
 	cuts   [][]int
+	nack   bool // a frame of the batch is answered by generic_nack
 }
 
 func c16Scenario(r *Run, ts []pduType, idx int) {
@@ -63,9 +64,25 @@ func c16Scenario(r *Run, ts []pduType, idx int) {
 			w.AppGrant()
 		}
 	}
+	releaseAll := func() {
+		for again := true; again && w.Stuck == ""; {
+			again = false
+			for _, c := range reqs {
+				if w.Held(c) {
+					w.Release(c)
+					again = true
+				}
+			}
+		}
+	}
 	flush := func() {
 		if len(batch.frames) == 0 {
 			return
+		}
+		if batch.nack {
+			// Watch answers with a generic_nack: whether that Write may overlap a caller's open Write or has to wait
+			// for it (a write lock) is not decided by the property — no caller Write is open when it is due
+			releaseAll()
 		}
 		if len(batch.frames) == 1 && len(batch.frames[0]) > 2 && rng.Intn(6) == 0 {
 			// one frame split over two forced events: Watch waits inside the frame
@@ -100,7 +117,7 @@ func c16Scenario(r *Run, ts []pduType, idx int) {
 		case k < 6:
 			var open []*Call
 			for _, c := range reqs {
-				if !answered[c.ID] {
+				if !answered[c.ID] && w.Written(c) { // the peer answers what has reached the transport
 					open = append(open, c)
 				}
 			}
@@ -152,6 +169,11 @@ func c16Scenario(r *Run, ts []pduType, idx int) {
 			if w.Held(c) {
 				w.Release(c)
 			}
+			if !w.Returned(c) {
+				// still on its way to the transport (behind another caller's open Write): it ends with an error once
+				// it gets there; its number is not free yet
+				continue
+			}
 			f = genUnsolicited(rng, ts, c.Seq)
 			_, id, s := classifyFrame(f)
 			wantApp = append(wantApp, Delivery{id, s})
@@ -161,6 +183,7 @@ func c16Scenario(r *Run, ts []pduType, idx int) {
 			s := fresh()
 			if rng.Bool() {
 				f = genOversizeFrame(rng, s, true)
+				batch.nack = true
 				wantNack = append(wantNack, s)
 				sawBad = true
 				hist["item/undecodable-over-4096"]++
@@ -175,6 +198,7 @@ func c16Scenario(r *Run, ts []pduType, idx int) {
 				s = badSeq(rng)
 			}
 			f = genBadFrame(rng, ts, s)
+			batch.nack = true
 			if s > 0 {
 				wantNack = append(wantNack, s)
 			}
@@ -198,11 +222,7 @@ func c16Scenario(r *Run, ts []pduType, idx int) {
 		}
 	}
 	flush()
-	for _, c := range reqs {
-		if w.Held(c) {
-			w.Release(c)
-		}
-	}
+	releaseAll() // (a call may reach the transport only once another's Write has returned)
 	for i := 0; !auto && i < 64 && w.Stuck == "" && w.watchSending(); i++ {
 		w.AppGrant()
 	}
